@@ -53,7 +53,10 @@ def run(argv=()):
         p = os.path.join(tdir, f"trace-{name}.ndjson")
         with open(p, "w") as f:
             f.writelines(new)
-        a, where, event, _ = graph.tlc_validate_trace(p, "TraceGraph", "TraceGraph_core.cfg")
+        try:
+            a, where, event, _ = graph.tlc_validate_trace(p, "TraceGraph", "TraceGraph_core.cfg")
+        except Exception as e:  # an event that mentions a node the model never saw cannot even be evaluated
+            a, where = False, "evaluation error: " + str(e).strip().splitlines()[-1][:120]
         log(f"[selftest] {name}: accepted={a} rejected_at={where}")
         ok &= not a
 
